@@ -858,6 +858,72 @@ def r15_fillers_orders_and_strict_text(idx, r):
               msg=f"`{norm(lossy[0])[:70] if lossy else ''}` substitutes characters it cannot encode: the string read back differs from the one written, where the property demands a refusal at write time")
 
 
+def r16_order_and_registration(idx, r):
+    """(a) everything the database flattens is restored with C-order shapes: a flatten/ravel/reshape in armi/bookkeeping/db that names another
+    order (F, A, K) emits the values of a transposed array in memory order, and they come back permuted.  (b) Layout._createLayout writes one
+    row per object in pre-order and `indexInData` is the object's position in its class list: the object joins that list BEFORE its
+    descendants are laid out, and the index stored is its own position (len - 1 after the append, len before it).  (c) Flag._registerField
+    marks the value it registers as taken on every path - the next auto() must not hand it out again."""
+    n = 0
+    for m in idx.modules.values():
+        if not m.name.startswith("armi.bookkeeping.db") or ".tests" in m.name:
+            continue
+        for f in m.all_funcs():
+            for c in iter_calls(f.node):
+                if call_attr(c) in ("ravel", "flatten", "reshape", "asarray", "array", "ascontiguousarray", "asfortranarray"):
+                    n += 1
+                    o = get_arg(c, None, "order")
+                    okc = (o is None or (isinstance(o, ast.Constant) and o.value == "C")) and call_attr(c) != "asfortranarray"
+                    r.require(okc, f"{f.qualname}:{call_attr(c)}:logical-order", f, node=c,
+                              msg=f"`{norm(c)[:70]}` does not flatten/shape in C (logical) order: the reader rebuilds the value with C-order shapes, so a transposed or Fortran-ordered array reads back permuted")
+    if n < 5:
+        raise AnchorMissing("flatten/ravel/reshape calls in armi/bookkeeping/db")
+    f = idx.method("armi.bookkeeping.db.layout.Layout", "_createLayout")
+    comp = f.params()[1]
+
+    def ev(nd):
+        if isinstance(nd, ast.Call):
+            t = norm(nd.func)
+            if t.endswith(".append") and nd.args and norm(nd.args[0]) == comp and "indexInData" not in t and "_spatialLocators" not in t:
+                return ["joined"]
+        return []
+    fl = Flow(f.node, ev).run()
+    rec = [c for c in iter_calls(f.node) if dotted(c.func) == "self._createLayout"]
+    ind = [c for c in iter_calls(f.node) if dotted(c.func) == "self.indexInData.append"]
+    if len(rec) != 1 or len(ind) != 1:
+        raise AnchorMissing("_createLayout: recursion and indexInData.append")
+    st = fl.state_before(rec[0]) or {}
+    r.require(st.get("joined", (0, 0))[0] >= 1, "_createLayout:object-joins-its-class-list-before-its-descendants", f, node=rec[0],
+              msg="the descendants are laid out before the object has joined the list of its class: with an object of the same class below it (a Composite in a Composite) the class list is in "
+                  "post-order while the layout rows are in pre-order, and parameters are read back onto the wrong objects")
+    joined_before = (fl.state_before(ind[0]) or {}).get("joined", (0, 0))
+    want = "len(compList) - 1" if joined_before[0] >= 1 else ("len(compList)" if joined_before[1] == 0 else None)
+    r.require(want is not None and norm(ind[0].args[0]) == want, "_createLayout:indexInData-is-the-object's-own-position", f, node=ind[0],
+              msg=f"`{norm(ind[0])}` is not the position of the object in its class list (expected {want})")
+    g = idx.method("armi.utils.flags.Flag", "_registerField")
+    value = g.params()[2]
+
+    def ev2(nd):
+        if isinstance(nd, ast.Call) and norm(nd.func).endswith("._valuesTaken.add") and nd.args and norm(nd.args[0]) == value:
+            return ["taken"]
+        if isinstance(nd, ast.Assign) and any(norm(t).endswith("._nameToValue[name]") or (isinstance(t, ast.Subscript) and norm(t.value).endswith("._nameToValue")) for t in nd.targets):
+            return ["stored"]
+        return []
+    fl2 = Flow(g.node, ev2).run()
+    rebuilt = [s_ for s_ in iter_stores(g.node) if s_.attr == "_valuesTaken" and s_.kind == "assign"]
+    okt = not fl2.must_at_normal_exits("taken")
+    if rebuilt and not okt:
+        # rebuilding the set from the table counts only when the table already holds the new value
+        okt = all((fl2.state_before(s_.stmt) or {}).get("stored", (0, 0))[0] >= 1 and "_nameToValue" in norm(s_.value) for s_ in rebuilt)
+    r.require(okt, "Flag._registerField:registered-value-marked-as-taken", g,
+              msg="a path registers the field without marking its value as taken: the next auto() hands the same bit out again and two flags share it")
+
+
+def r17_pairing(idx, r):
+    from ..pairing import pairing_rule
+    pairing_rule(idx, r, ["armi.bookkeeping.db", "armi.utils.flags", "armi.reactor.flags", "armi.reactor.parameters"], 60)
+
+
 def run(idx, chk):
     chk.explanation = (
         "C05: pack/unpack are sibling implementations; their attrs key sets, strategy decision trees, None-sentinel tables, "
@@ -895,3 +961,7 @@ def run(idx, chk):
                  necessary="flag sets keep their meaning: no two flags share a bit")
     chk.run_rule("R05.15", "only NaN fillers are dropped from dict columns; sortedFields is sorted by value; text is encoded strictly", lambda r: r15_fillers_orders_and_strict_text(idx, r), floor=3,
                  necessary="values come back unchanged or are refused at write time; flag sets keep their meaning")
+    chk.run_rule("R05.16", "values are flattened in logical order; an object joins its class list before its descendants; a registered flag value is marked as taken", lambda r: r16_order_and_registration(idx, r), floor=8,
+                 necessary="every value and every flag name reads back on the object it was written for")
+    chk.run_rule("R05.17", "arguments stand at the parameter they are named after; sibling calls forward the same pass-through parameters", lambda r: r17_pairing(idx, r), floor=1,
+                 necessary="packing and unpacking receive the attributes and shapes that belong to the value")
